@@ -221,7 +221,7 @@ PROFILES = {
     'forbid': Profile('forbid', [12, 13, 14, 2, 9, 10, 1, 3, 33, 43, 53, 30, 40, 50, 23, 62, 63, 68, 65, 67, 64],
                       dict(mock=1, expect=8, call=6, call_live=14, release=4, dmock=0.7, scope=3, endscope=3), nmock=2,
                       bounds=((0, 0), (0, 0), (1, 1), (0, INF), (1, 2)), prelude=('mock',)),
-    'clauses': Profile('clauses', [4, 8, 16, 21, 25, 31, 41, 51, 15, 55, 3, 10, 13],
+    'clauses': Profile('clauses', [4, 8, 16, 21, 25, 31, 41, 51, 15, 55, 3, 10, 13, 90, 91, 92],
                        dict(mock=0.5, seq=1, expect=8, call_live=14, call=3, release=2), nmock=1, nseq=2,
                        se_beh=(0, 0, 0, 0, 1, 2, 3, 3), prelude=('mock', 'seq', 'seq'),
                        bounds=((1, 1), (0, INF), (1, 3), (2, 2))),
@@ -235,7 +235,7 @@ PROFILES = {
     'reporters': Profile('reporters', [2, 3, 5, 9, 10, 12, 13, 30, 33, 50, 53, 11],
                          dict(mock=0.5, seq=0.5, expect=8, call=5, call_live=14, release=3, setrep=5, dmock=0.5, obj=0.7,
                               dobj=0.7), nmock=2, nseq=1, prelude=('mock', 'seq')),
-    'trace': Profile('trace', [1, 2, 4, 15, 16, 50, 51, 55, 30, 40, 12, 9],
+    'trace': Profile('trace', [1, 2, 4, 15, 16, 50, 51, 55, 30, 40, 12, 9, 90, 91, 92],
                      dict(mock=0.5, expect=8, call=3, call_live=14, release=2, tracer=5, dtracer=4), nmock=1,
                      se_beh=(0, 0, 0, 1, 2, 3), prelude=('mock',), bounds=((1, 1), (0, INF), (1, 3))),
 }
@@ -354,12 +354,17 @@ def gen_conc_segments(nseg, seed, nthreads=(2, 4), oplen=(3, 14), prefix='conc')
             if focused:
                 L = rnd.randint(0, 3)
                 if t == 0:
+                    if rnd.random() < 0.5:
+                        lines.append('thr 0 mqueryx 4'); lines.append('thr 0 mqueryx 4')
                     lines.append('thr 0 unwatch 4'); cross_pending = False
                 elif t == 1:
                     lines.append('thr 1 dobj 2'); obj_alive = False
             while cnt < L:
                 if cross_pending and rnd.random() < 0.15:
                     lines.append('thr 0 unwatch 4'); cross_pending = False; cnt += 1
+                    continue
+                if cross_pending and rnd.random() < 0.2:
+                    lines.append('thr 0 mqueryx 4'); cnt += 1      # query a requirement whose object another thread may be destroying
                     continue
                 kind = rnd.choices(['expect', 'call', 'release', 'query', 'iscompleted', 'watch', 'dobj', 'unwatch', 'mquery', 'dmock'],
                                    [6, 12, 3, 3, 3, 1.5, 1.2, 0.8, 1, 0.3])[0]
